@@ -160,12 +160,25 @@ def ty_named(s):
 
 
 class Val:
-    """lin: mathematical value; ty: C++ type; wrapped: the machine value is only known congruent to lin mod 2^bits;
-    negconv: it came from converting a possibly negative signed value (for the report text)."""
-    __slots__ = ('lin', 'ty', 'wrapped', 'negconv', 'cmp')
+    """lin: mathematical value; ty: C++ type; mod: None when the machine value equals lin, else k meaning the machine
+    value is only known congruent to lin modulo 2^k (it went through a k-bit wrap); alo/ahi: numeric bounds of the
+    *machine* value when mod is set (the range of the narrow type it came from); negconv: it came from converting a
+    possibly negative signed value (report text); cmp: a comparison (op, a, b) for boolean values."""
+    __slots__ = ('lin', 'ty', 'mod', 'negconv', 'cmp', 'alo', 'ahi')
 
-    def __init__(self, lin, ty, wrapped=False, negconv=False, cmp=None):
-        self.lin, self.ty, self.wrapped, self.negconv, self.cmp = lin, ty, wrapped, negconv, cmp
+    def __init__(self, lin, ty, mod=None, negconv=False, cmp=None, alo=None, ahi=None):
+        if mod is True:
+            mod = ty.bits if ty is not None else 64
+        elif mod is False:
+            mod = None
+        self.lin, self.ty, self.mod, self.negconv, self.cmp = lin, ty, mod, negconv, cmp
+        if mod is not None and ty is not None and alo is None:
+            alo, ahi = ty.lo, ty.hi
+        self.alo, self.ahi = alo, ahi
+
+    @property
+    def wrapped(self):
+        return self.mod is not None
 
 
 class State:
@@ -506,43 +519,56 @@ class Interp:
     # ---- conversions
     def need_exact(self, st, v, node, why):
         """v is about to be used by a non-homomorphic operator: its machine value must equal its mathematical one."""
-        if v is None or v.lin is None:
+        if v is None or v.lin is None or v.ty is None:
             return v
-        if not v.wrapped and v.ty is not None:
+        if v.mod is None:
             return v
-        if v.ty is None:
-            return v
-        if self.in_range(st, v.lin, v.ty):
+        # value == lin (mod 2^k), value within its type: equal as soon as the type has at most k bits and lin fits it
+        if v.ty.bits <= v.mod and self.in_range(st, v.lin, v.ty):
             return Val(v.lin, v.ty)
         if v.negconv:
             self.ob('sconv', node, 'a possibly negative signed value is converted to %s and then used by %s: the '
-                    'result is computed on value + 2^%d' % (v.ty, why, v.ty.bits))
+                    'result is computed on value + 2^%d' % (v.ty, why, v.mod))
         else:
             self.ob('wrap', node, 'an %s intermediate may leave [0, 2^%d) and is then used by %s'
-                    % (v.ty, v.ty.bits, why))
+                    % (v.ty, v.mod, why))
         # continue with an unknown value of the type
         return Val(self.full_range_sym(st, v.ty, 'w'), v.ty)
+
+    def abounds(self, st, v):
+        """numeric bounds of the machine value of v"""
+        if v.mod is not None:
+            return v.alo, v.ahi
+        lo, hi = self.bounds(st, v.lin)
+        if lo is None or (v.ty is not None and lo < v.ty.lo):
+            lo = v.ty.lo if v.ty is not None else None
+        if hi is None or (v.ty is not None and hi > v.ty.hi):
+            hi = v.ty.hi if v.ty is not None else None
+        return lo, hi
 
     def convert(self, st, v, ty, node):
         if v is None or v.lin is None or ty is None:
             return v
         if v.ty is not None and v.ty.bits == ty.bits and v.ty.signed == ty.signed:
-            return Val(v.lin, ty, v.wrapped, v.negconv)
+            return Val(v.lin, ty, v.mod, v.negconv, alo=v.alo, ahi=v.ahi)
         if ty.name == 'bool':
+            v = self.need_exact(st, v, node, 'a conversion to bool')
             return Val(None, ty, cmp=('!=', v.lin, Lin(0)))
         src = v.ty
-        if v.wrapped:
-            # congruence survives only towards a type of at most the same width
-            if src is not None and ty.bits <= src.bits:
-                return Val(v.lin, ty, True, v.negconv)
-            v = self.need_exact(st, v, node, 'a conversion to the wider type %s' % ty)
-        if self.in_range(st, v.lin, ty):
+        if v.mod is None:
+            if self.in_range(st, v.lin, ty):
+                return Val(v.lin, ty)
+            negconv = (not ty.signed) and src is not None and src.signed and not st.prove_ge0(v.lin)
+            return Val(v.lin, ty, ty.bits, negconv)
+        # a congruence modulo 2^k: the conversion reduces modulo 2^bits, so it survives modulo 2^min(k, bits)
+        k = min(v.mod, ty.bits)
+        alo, ahi = v.alo, v.ahi
+        if alo is None or alo < ty.lo or ahi is None or ahi > ty.hi:
+            alo, ahi = ty.lo, ty.hi
+        r = Val(v.lin, ty, k, v.negconv, alo=alo, ahi=ahi)
+        if ty.bits <= k and self.in_range(st, v.lin, ty) and not (v.negconv and False):
             return Val(v.lin, ty)
-        if ty.signed:
-            # out-of-range conversion to signed: modular (implementation-defined before C++20); keep congruence
-            return Val(v.lin, ty, True, False)
-        negconv = src is not None and src.signed and not st.prove_ge0(v.lin)
-        return Val(v.lin, ty, True, negconv)
+        return r
 
     # ---- expressions: returns list of (state, Val)
     def eval(self, e, st):
@@ -666,7 +692,8 @@ class Interp:
             return out
         for st2, v in self.eval(c[0], st):
             if op == '-' and v.lin is not None and ty is not None:
-                out.append((st2, self.finish(st2, -v.lin, ty, e, v.wrapped, v.negconv)))
+                out.append((st2, self.finish(st2, -v.lin, ty, e, v.mod, v.negconv,
+                                             (-(v.ahi), -(v.alo)) if v.mod is not None and v.alo is not None else None)))
             elif op == '+':
                 out.append((st2, v))
             elif op == '!':
@@ -685,22 +712,33 @@ class Interp:
                 out.append((st2, Val(None, ty) if ty is None else Val(self.full_range_sym(st2, ty, 'u'), ty)))
         return out
 
-    def finish(self, st, lin, ty, node, wrapped_in=False, negconv=False):
-        """result of a homomorphic operation of type ty with mathematical value lin"""
+    def finish(self, st, lin, ty, node, mod_in=None, negconv=False, arange=None):
+        """result of a homomorphic operation of type ty with mathematical value lin; mod_in: the weakest congruence
+        among the operands (None: all exact); arange: numeric interval of the machine result (needed for signed
+        operations on congruent operands)"""
+        if mod_in is True:
+            mod_in = ty.bits
+        elif mod_in is False:
+            mod_in = None
         if ty.signed:
-            if wrapped_in:
-                return Val(lin, ty, True, negconv)
-            if not self.in_range(st, lin, ty):
-                self.ob('soverflow', node, 'signed %s arithmetic may overflow (undefined behaviour): value %s'
-                        % (ty, lin))
+            if mod_in is None:
+                if not self.in_range(st, lin, ty):
+                    self.ob('soverflow', node, 'signed %s arithmetic may overflow (undefined behaviour): value %s'
+                            % (ty, lin))
+                    return Val(self.full_range_sym(st, ty, 'o'), ty)
+                return Val(lin, ty)
+            lo, hi = arange if arange else (None, None)
+            if lo is None or hi is None or lo < ty.lo or hi > ty.hi:
+                self.ob('soverflow', node, 'signed %s arithmetic on a wrapped operand may overflow (undefined '
+                        'behaviour)' % ty)
                 return Val(self.full_range_sym(st, ty, 'o'), ty)
+            return Val(lin, ty, mod_in, negconv, alo=lo, ahi=hi)
+        if mod_in is None and self.in_range(st, lin, ty):
             return Val(lin, ty)
-        if not wrapped_in and self.in_range(st, lin, ty):
-            return Val(lin, ty)
-        if wrapped_in and self.in_range(st, lin, ty) and not negconv:
-            # a deliberate wrap that has been undone
-            return Val(lin, ty)
-        return Val(lin, ty, True, negconv)
+        k = min(mod_in, ty.bits) if mod_in is not None else ty.bits
+        if ty.bits <= k and self.in_range(st, lin, ty) and not negconv:
+            return Val(lin, ty)       # a deliberate wrap that has been undone
+        return Val(lin, ty, k, negconv)
 
     def bounds(self, st, lin):
         """numeric (lo, hi) of lin under st.cons, by bisection-free FM probing on a few candidates; None if unbounded"""
@@ -739,12 +777,18 @@ class Interp:
     def arith(self, st, op, a, b, ty, node):
         if a.lin is None or b.lin is None or ty is None:
             return Val(None, ty)
-        w = a.wrapped or b.wrapped
+        mods = [m for m in (a.mod, b.mod) if m is not None]
+        w = min(mods) if mods else None
         nc = a.negconv or b.negconv
+        ar = None
+        if w is not None and ty.signed and op in ('+', '-'):
+            (al, ah), (bl, bh) = self.abounds(st, a), self.abounds(st, b)
+            if None not in (al, ah, bl, bh):
+                ar = (al + bl, ah + bh) if op == '+' else (al - bh, ah - bl)
         if op == '+':
-            return self.finish(st, a.lin + b.lin, ty, node, w, nc)
+            return self.finish(st, a.lin + b.lin, ty, node, w, nc, ar)
         if op == '-':
-            return self.finish(st, a.lin - b.lin, ty, node, w, nc)
+            return self.finish(st, a.lin - b.lin, ty, node, w, nc, ar)
         if op == '*':
             if a.lin.is_const():
                 return self.finish(st, b.lin.scale(a.lin.c), ty, node, w, nc)
@@ -884,6 +928,12 @@ class Interp:
                 s1.dead = True
                 continue
             contract = self.cfg.helpers.get(name)
+            cal = e.get('callee') or ''
+            if cal.startswith('std::numeric_limits<') and name in ('max', 'min') and ty is not None:
+                tn = ty_named(cal[len('std::numeric_limits<'):cal.rindex('>')])
+                if tn is not None:
+                    out.append((s1, Val(Lin(tn.hi if name == 'max' else tn.lo), ty)))
+                    continue
             if name != 'swap':
                 # a call consumes the machine value of its integer arguments
                 vs = [self.need_exact(s1, v, e, 'the call to %s' % (name or 'a function'))
